@@ -320,8 +320,11 @@ def _nt_value(v):
 def _value_strategy():
     from hypothesis import strategies as st
 
-    scal = values.scalars()
-    key = st.one_of(values.texts(6), values.ints(), values.byteses(4))
+    # plus text with unpaired surrogates (legal str values; pickle itself encodes them with
+    # surrogatepass)
+    scal = st.one_of(values.scalars(), values.scalars(), values.scalars(),
+                     st.sampled_from(["\ud800", "a\udfffb", "\udc80x", "\ud83d", "\ude00\ud83d"]))  # fmt: skip
+    key = st.one_of(values.texts(6), values.ints(), values.byteses(4), st.just("\udcff"))
     return st.one_of(
         scal,
         scal,
